@@ -1,5 +1,5 @@
 # C02 -- parsing untrusted bytes is memory-safe, terminates, and costs O(input)
-import vrun
+import vrun, wire
 from vrun import Job
 
 UM_SRC = ['lang/c/micromessage/MicroMessage.c']
@@ -22,8 +22,71 @@ def um_jobs(tier):
     return jobs
 
 
+MM_SRC = ['lang/c/minimessage/MiniMessage.c']
+
+
+def depth(m):
+    d = 1
+    for n, t, items in m.fields:
+        if t == 'message': d = max(d, 1 + max([depth(x) for x in items] or [0]))
+    return d
+
+
+def layout_jobs(tier, prefix, harness, entry, srcs, engine='A', shapes=None, kw=None, ranged=True):
+    """jobs over (shape, truncation length) and (shape, hostile framing word, value split)"""
+    jobs = []
+    S = wire.std_shapes(tier)
+    for sname, m in S.items():
+        if shapes and sname not in shapes: continue
+        toks = wire.tokens(m); full = wire.size(toks); W = wire.nwords(toks); labels = wire.word_labels(toks)
+        def mk(tag, gen, fam, spec=None):
+            return Job('%s %s %s' % (prefix, sname, tag), engine, harness, entry, srcs=srcs, gen_c=gen, family='%s/%s' % (prefix, fam), **kw(m, full, spec))
+        jobs.append(mk('full', wire.gen_c(m), 'full'))
+        jobs.append(mk('garbage+3', wire.gen_c(m, garbage=3), 'garbage'))
+        for t in range(0, full):
+            jobs.append(mk('trunc=%d' % t, wire.gen_c(m, trunc=t), 'trunc'))
+        for k in range(W):
+            for spec in wire.hostile_splits(toks, k, ranged=ranged, dense=(tier != 'quick')):
+                if spec[0] == 'const' and spec[1] == wire.word_values(toks)[k]: continue   # that is the 'full' job
+                tag = 'word%d[%s]=%s' % (k, labels[k], spec[1] if spec[0] == 'const' else '%d..2^32-1' % spec[1])
+                jobs.append(mk(tag, wire.gen_c(m, hostile=(k, spec)), 'hostile/' + labels[k].split('(')[0], spec + (labels[k],) if spec[0] == 'const' else spec))
+    return jobs
+
+
+def mm_jobs(tier):
+    def kw(m, full, spec=None, tier=tier):
+        d = depth(m) + 1
+        T = full + 3                      # longest buffer of any job of this shape (garbage+3)
+        one = 2 * full + 160
+        nf = (T - 12) // 14 + 2           # a parsed field consumes >= 14 input bytes
+        sub = T // 16 + 2                 # a parsed sub-message consumes >= 16 input bytes
+        var = T // 4 + 2                  # a parsed string/blob consumes >= 4 input bytes
+        nm = 4                            # field names of the shapes have 1 character
+        items = var
+        mem = one + 1
+        if spec is not None:
+            if spec[0] == 'const':
+                if spec[2].startswith('nameLen'): nm = T
+                if spec[2].startswith('numItems'): items = max(items, spec[1] + 2)
+            else:
+                # the hostile word is a solver variable: a size derived from it is symbolic, and loops over such a size are unrolled to the bound at
+                # every call site, also in continuations that the parser's own checks make infeasible.  Keep the bound at what the bytes present allow.
+                mem = T + 72
+        us = {'MMUnflattenMessage': d, 'MMFreeMessage': d + 1, 'MMClearMessage': d + 1, 'FreeMMessageField': d + 1, 'MMGetFlattenedSize': d + 1, 'GetMMessageFieldFlattenedSize': d + 1,
+              'MMFlattenMessage': d + 1, 'FlattenMMessageField': d + 1,
+              'verif_memset.0': mem, 'verif_memcpy.0': mem, 'harness_mm_parse.0': wire.WL_MAXVALS + 1, 'harness_mm_parse.1': nf, 'harness_mm_parse.2': 162,
+              'LookupMMessageField.0': nf, 'MMClearMessage.0': nf, 'MMGetFlattenedSize.0': nf, 'MMFlattenMessage.0': nf, 'MMFlattenMessage.1': nf, 'MMUnflattenMessage.0': nf,
+              'MMGetNextFieldName.0': nf, 'strcmp.0': nm, 'strlen.0': nm, 'MMUnflattenMessage.1': sub, 'MMUnflattenMessage.2': sub, 'MMUnflattenMessage.4': sub, 'MMUnflattenMessage.3': var,
+              'GetMMessageFieldFlattenedSize.0': items, 'GetMMessageFieldFlattenedSize.1': items, 'FlattenMMessageField.0': items, 'FlattenMMessageField.1': items,
+              'FreeMMessageField.0': items, 'FreeMMessageField.1': items, 'MMPutMessageField.0': sub, 'PutMMVariableFieldAux.0': items}
+        return dict(cdefs={'VERIF_ALLOC_ONE': one, 'VERIF_ALLOC_TOTAL': 16 * full + 2048}, force_include=['harness/c/valloc.h'], unwind=6, unwindset=us,
+                    mode='mem', object_bits=12, unwind_is_property=True, timeout=(40 if tier == 'quick' else 300))
+    shapes = ['i32x2', 'str2', 'msg1'] if tier == 'quick' else None
+    return layout_jobs(tier, 'mm_parse', 'harness/c/mm_parse.c', 'harness_mm_parse', MM_SRC, shapes=shapes, kw=kw, ranged=False)
+
+
 def run(tier, seed):
-    jobs = um_jobs(tier)
+    jobs = um_jobs(tier) + mm_jobs(tier)
     meta = {
         'rule': 'one CBMC job per (parser entry point, exact buffer length N); inside a job every buffer byte, field name byte, index and type-code argument is a solver variable; '
                 'a job is non-trivial iff its end-of-harness witness assertion is reachable (reported FAILED by CBMC)',
@@ -34,3 +97,10 @@ def run(tier, seed):
         'functions_encoded': ['MicroMessage.c: whole file (read accessors)'],
     }
     return vrun.run_property('C02', tier, seed, jobs, meta)
+
+
+if __name__ == '__main__':
+    import sys
+    js = [j for j in (um_jobs('quick') + mm_jobs('quick')) if sys.argv[1] in j.name]
+    print(len(js), 'jobs')
+    sys.exit(vrun.run_property('C02', 'quick', 1, js, {'rule': 'debug subset'}))
